@@ -69,6 +69,8 @@ def tables(A):
       except ValueError:
         supported[((c, a), op)] = False
   hasw = {c: (o is not None and o.weight_tensor_config is not None) for c, o in A["cfgs"].items()}
+  _, Q, _, _ = lib()
+  A["_actcfg"] = {c: (o is not None and o.activation_tensor_config is not None and o.compute_precision == Q.ComputePrecision.INTEGER) for c, o in A["cfgs"].items()}
   return matches, supported, hasw
 
 
@@ -83,6 +85,7 @@ def tla_constants(A, max_len, fixes):
       Matches="[p \\in Regexes \\X Scopes |-> p \\in %s]" % tlc.tla_set(["<<%s, %s>>" % (q(r), q(s)) for (r, s), v in sorted(matches.items()) if v]),
       Supported="[p \\in CfgAlgs \\X QueryOps |-> p \\in %s]" % tlc.tla_set(["<<%s, %s>>" % (ca(c), q(o)) for (c, o), v in sorted(supported.items()) if v]),
       HasWeightCfg="[c \\in %s |-> c \\in %s]" % (tlc.tla_str_set(sorted(A["cfgs"])), tlc.tla_str_set(sorted(c for c, v in hasw.items() if v))),
+      ActCfg="[c \\in %s |-> c \\in %s]" % (tlc.tla_str_set(sorted(A["cfgs"])), tlc.tla_str_set(sorted(c for c, v in A["_actcfg"].items() if v))),
       Lists="<<" + ", ".join("<<" + ", ".join("<<%s, %s, %s>>" % (q(r), q(o), ca(c)) for r, o, c in L) + ">>" for L in A.get("lists", [])) + ">>",
       ScopePairs=tlc.tla_set(["<<%s, %s>>" % (q(a), q(b)) for a, b in A.get("scope_pairs", [])]),
       MaxLen=str(max_len), Fixes=tlc.tla_str_set(fixes))
